@@ -520,3 +520,19 @@ ENTRIES += [
     M("C10-train-on-stale-buffer", "C10", "C10.2", (OFP, "            state.policy, state.opt_state, step_state.buffer, key=train_key", "            state.policy, state.opt_state, state.step_state.buffer, key=train_key")),
     M("C08-a2c-loss-unflattened", "C08", "C08.6", (A2C, "            policy,\n            flat_buffer,\n            self.normalize_advantages,", "            policy,\n            buffer,\n            self.normalize_advantages,")),
 ]
+
+ENTRIES += [
+    V("C04-v-boot-additive", "C04", (ONP, "        bootstrapped_reward = lax.cond(\n            truncation & ~termination,\n            lambda: (\n                reward\n                + self.gamma\n                * policy.value(\n                    next_policy_state,\n                    env.observation(next_env_state, key=bootstrap_key),\n                )[1]\n            ),\n            lambda: reward,\n        )",
+       "        timeout_only = truncation & ~termination\n        next_value = policy.value(\n            next_policy_state,\n            env.observation(next_env_state, key=bootstrap_key),\n        )[1]\n        bootstrapped_reward = reward + jnp.where(timeout_only, self.gamma * next_value, 0.0)")),
+]
+
+ENTRIES += [
+    V("C07-v-mask-one-minus", "C07", (DQN, "        not_terminal = (~batch.dones | batch.timeouts).astype(float)", "        not_terminal = 1.0 - (batch.dones & ~batch.timeouts).astype(float)")),
+    V("C07-v-sac-mask-where", "C07", (SAC, "            not_terminal = (~done | timeout).astype(float)\n            return reward + self.gamma * min_q_next * not_terminal", "            return reward + jnp.where(done & ~timeout, 0.0, self.gamma * min_q_next)")),
+]
+
+ENTRIES += [
+    V("C13-v-rename-nested", "C13", (WU, "    def forward(sample: Float[ArrayLike, \" ...\"]) -> Float[Array, \" ...\"]:", "    def to_new(sample: Float[ArrayLike, \" ...\"]) -> Float[Array, \" ...\"]:"),
+      (WU, "    def backward(sample: Float[ArrayLike, \" ...\"]) -> Float[Array, \" ...\"]:", "    def to_old(sample: Float[ArrayLike, \" ...\"]) -> Float[Array, \" ...\"]:"),
+      (WU, "    return RescaleResult(new_box, forward, backward)", "    return RescaleResult(new_box, to_new, to_old)")),
+]
